@@ -135,6 +135,20 @@ theorem foldl_updState_keys (tool : String) : ∀ (l : List CdsRes) (m : List (S
 
 /-! ### PFAM version guard -/
 
+theorem versionKeys_mem : ∀ (l : List String) (r : List (List Nat × String)), versionKeys l = some r →
+    ∀ p ∈ r, p.2 ∈ l
+  | [], r, h, p, hp => by simp [versionKeys] at h; subst h; cases hp
+  | v :: vs, r, h, p, hp => by
+    simp only [versionKeys] at h
+    split at h
+    · rename_i k r' hk hr
+      simp at h; subst h
+      rcases List.mem_cons.mp hp with rfl | hp'
+      · simp
+      · exact List.mem_cons_of_mem _ (versionKeys_mem vs r' hr p hp')
+    · simp at h
+
+
 theorem pfamKeepAllowed_eq (m : HmmerModule) (o : PfamOpts) (v : String) :
     Spec.pfamKeepAllowed m o v = (o.wanted m == v) := by
   cases m <;> rfl
